@@ -490,11 +490,15 @@ def run_cases_batch(ctx, cases, root, jobs=16):
 
     def one(idx):
         payload = json.dumps([{"args": preps[i]["args"], "dir": preps[i]["dir"]} for i in idx])
-        rc, so, se = run_py(ctx, BATCH_DRIVER, cwd=root, stdin=payload, timeout=3000)
-        line = [x for x in so.splitlines() if x.startswith("RESULTS ")]
-        if rc != 0 or not line:
-            raise RuntimeError("batch driver failed: " + se[-2000:])
-        return json.loads(line[-1][len("RESULTS "):])
+        for attempt in range(4):
+            rc, so, se = run_py(ctx, BATCH_DRIVER, cwd=root, stdin=payload, timeout=3000)
+            line = [x for x in so.splitlines() if x.startswith("RESULTS ")]
+            if rc == 0 and line:
+                return json.loads(line[-1][len("RESULTS "):])
+            # the shared scratch build may be mid-rebuild (import error at driver start): wait and retry
+            import time
+            time.sleep(20 * (attempt + 1))
+        raise RuntimeError("batch driver failed: " + se[-2000:])
     with ThreadPoolExecutor(max_workers=jobs) as ex:
         results = list(ex.map(one, chunks))
     obs = [None] * len(cases)
